@@ -73,6 +73,9 @@ func (k checker) saveSequences(next func() bool) {
 	}
 	for fi := 0; fi < 3; fi++ {
 		if next() {
+			k.sinks(fi)
+		}
+		if next() {
 			k.afterFailedRead(fi)
 		}
 		if next() {
@@ -170,6 +173,25 @@ func (k checker) loadAfterReplace(fi int) {
 		k.c.Eval(scope, "mismatch")
 		k.c.Violate(core.Violation{Site: "ply.Load", Clause: "loading a path yields the mesh of the file it holds now", Class: "load-after-replace/" + names[fi], Detail: why, Case: cs})
 		return
+	}
+	k.c.Eval(scope, "ok")
+}
+
+// the same mesh to every kind of destination (core.SinkAgreement), per encoding
+func (k checker) sinks(fi int) {
+	formats := []ply.Format{ply.ASCII, ply.BinaryLittleEndian, ply.BinaryBigEndian}
+	names := []string{"ascii", "binary_little_endian", "binary_big_endian"}
+	cs := Case{Scope: "destinations", SaveFormat: -(fi + 31)}
+	k.c.Nontrivial("destinations", fi)
+	scope := "files/destinations/" + names[fi]
+	cfgs := append(histCfgs(), MeshCfg{Gen: "strip", N: 3000, Attrs: []AttrCfg{{"Position", 3, "gen"}, {"Normal", 3, "gen"}, {"Color", 3, "unit"}}}, MeshCfg{Gen: "cloud", N: 5000, Attrs: []AttrCfg{{"Position", 3, "gen"}}})
+	for _, g := range cfgs {
+		m := g.resolved().Build()
+		if why := core.SinkAgreement(func(w io.Writer) error { return ply.Write(w, m, formats[fi]) }); why != "" {
+			k.c.Eval(scope, "mismatch")
+			k.c.Violate(core.Violation{Site: "ply.Write", Clause: "writing a mesh yields exactly the bytes of that mesh (whatever kind of io.Writer receives them)", Class: "destinations/" + names[fi], Detail: why, Case: cs})
+			return
+		}
 	}
 	k.c.Eval(scope, "ok")
 }
